@@ -46,6 +46,11 @@ var sessionCatalogue = []string{
 	`(begin (def pq%d (package "pq%d" { A := 1 })) pq%d.A)`,
 	`(defmac w%d [p & body] ^(cond ~p (begin ~@body) nil))`,
 	`(begin (defmac u%d [p & body] ^(cond ~p (begin ~@body) nil)) (u%d true 1 2))`,
+	`(begin (defmac wb%d [p & body] ^(cond ~p (begin ~@body) nil)) (for [(def i 0) (< i 3) (def i (+ i 1))] (let [q i] (wb%d (== q 1) (break)))))`,
+	`(begin (defmac wc%d [p & body] ^(cond ~p (begin ~@body) nil)) (def sm%d 0) (for [(def i 0) (< i 3) (def i (+ i 1))] (newScope (let [q i] (wc%d (== q 1) (continue)) (set sm%d (+ sm%d q))))) sm%d)`,
+	`(for [(def i 0) (< i 3) (def i (+ i 1))] (or (newScope (cond (== i 1) (let [y 1] (break)) 0) nil) 5))`,
+	`(for [(def i 0) (< i 3) (def i (+ i 1))] (and (let [y i] (cond (== y 1) (continue) y)) (newScope 5)))`,
+	`(begin (defmac tw%d [n] ^(cond (<= ~n 0) 0 (twf%d (- ~n 1)))) (defn twf%d [n] (let [m n] (tw%d m))) (twf%d 5))`,
 	`(macexpand (range k v (hash a: 1) k))`,
 	`(range k v (hash a: 1 b: 2) (+ v 1))`,
 	`(begin (def h (hash a: 1)) (hset h b: 2) (hget h b:))`,
